@@ -275,6 +275,13 @@ def make_problem(inst, solver=None, base_mixins=(), overrides=None):
                 out.append((self._lin(terms, at=float(times[at_index]), m=ensemble_member), lo, hi))
             return out
 
+        def delayed_feedback(self):
+            # (expression, receiving variable, delay): receiving(t) = expression(t - delay)
+            fb = super().delayed_feedback()
+            for (terms, target, tau) in ext.get("delay", []):
+                fb.append((self._lin(terms), target, tau))
+            return fb
+
         def solver_options(self):
             o = super().solver_options()
             if solver is not None:
